@@ -53,6 +53,7 @@ EVAL_NS = {
     "defaultdict": defaultdict,
     "array": array,
     "inf": INF,
+    "nan": float("nan"),
     "FACTORY": FACTORY,
     "environ": make_environ,
 }
@@ -68,10 +69,12 @@ def is_container(o):
 
 
 # ------------------------------------------------------------------ encoders (line protocol)
-def enc_node(n):
-    """real rich Node tree -> prefix-order records (see Drv/C16.lean)."""
+def enc_node(n, mask_root_last=False):
+    """real rich Node tree -> prefix-order records (see Drv/C16.lean).  `mask_root_last`: the root's `last`
+    flag is not observable in the repaired code (Lean: root_last_unobservable) and is sent as 1."""
     recs = []
     stack = [n]
+    root = n
     while stack:
         x = stack.pop()
         ch = x.children
@@ -83,7 +86,7 @@ def enc_node(n):
                     enc_str(x.open_brace),
                     enc_str(x.close_brace),
                     enc_str(x.empty),
-                    enc_bool(x.last),
+                    enc_bool(True if (mask_root_last and x is root) else x.last),
                     enc_bool(x.is_tuple),
                     enc_bool(ch is not None),
                     str(len(ch or [])),
@@ -148,7 +151,7 @@ def enc_heap(v, max_string):
             objs[idx] = f"M;{MAP_KINDS[t]};{enc_str(aux)};" + ",".join(f"{k}:{r}" for k, r in items)
             return idx
         idx = len(objs)
-        objs.append("L;" + leaf(o))
+        objs.append("L;" + leaf(o) + ";" + enc_bool(isinstance(o, tuple)))
         return idx
 
     root = visit(v)
@@ -239,13 +242,9 @@ def evaluable(v):
             seen.add(id(o))
             if type(o) is defaultdict and not (o.default_factory is None or o.default_factory is FACTORY):
                 return False
-            if type(o) is deque and o.maxlen is not None:
-                return False
             if type(o) in MAP_KINDS:
                 return all(go(k) and go(x) for k, x in o.items())
             return all(go(x) for x in o)
-        if isinstance(o, float):
-            return o == o
         return o is None or type(o) in (int, bool, str, bytes, float)
 
     return go(v)
@@ -364,7 +363,7 @@ def ref_lines(n, cell_len, width, indent, expand_all, crit=None):
         if n.text is not None or not n.kids:
             out.append((depth, one, False))
             return
-        need = depth * indent + cell_len(one)
+        need = depth * max(indent, 0) + cell_len(one)
         if crit is not None:
             crit.add(need)
         if not expand_all and need <= width:
@@ -382,18 +381,22 @@ def ref_lines(n, cell_len, width, indent, expand_all, crit=None):
 
 def ref_matches(real_text, lines, indent):
     """real output == reference, up to the optional comma.  Returns (ok, index of first differing line)."""
+    if real_text == ref_text(lines, indent) or real_text == "\n".join(
+        " " * (d * max(indent, 0)) + c + ("," if opt else "") for d, c, opt in lines
+    ):
+        return True, -1
     real = real_text.split("\n")
     if len(real) != len(lines):
         return False, min(len(real), len(lines))
     for i, (r, (d, c, opt)) in enumerate(zip(real, lines)):
-        want = " " * (d * indent) + c
+        want = " " * (d * max(indent, 0)) + c
         if r != want and not (opt and r == want + ","):
             return False, i
     return True, -1
 
 
 def ref_text(lines, indent):
-    return "\n".join(" " * (d * indent) + c for d, c, _ in lines)
+    return "\n".join(" " * (d * max(indent, 0)) + c for d, c, _ in lines)
 
 
 # ------------------------------------------------------------------ generators
@@ -626,3 +629,179 @@ def exhaustive_values():
             yield {"k": (v,)}
             yield ([v, v],)
             yield ({"a": v},)
+
+
+# ------------------------------------------------------------------ leaves at the edge of / outside the statement's domain
+import collections as _c
+import dataclasses as _dc
+
+
+class EmptyRepr:
+    def __repr__(self):
+        return ""
+
+
+class NewlineRepr:
+    def __init__(self, text="a\nbb"):
+        self.text = text
+
+    def __repr__(self):
+        return self.text
+
+
+class BrokenRepr:
+    def __repr__(self):
+        raise ZeroDivisionError("division by zero")
+
+
+class MyList(list):
+    pass
+
+
+class MyTuple(tuple):
+    pass
+
+
+class MyDict(dict):
+    pass
+
+
+class MyStr(str):
+    pass
+
+
+Point = _c.namedtuple("Point", "x y")
+
+
+@_dc.dataclass
+class DC:
+    a: int = 1
+    b: str = "two"
+
+
+def has_line_break(v):
+    """does some leaf / key repr contain a line boundary of str.splitlines()?"""
+    seen = set()
+    breaks = "\n\r\x0b\x0c\x1c\x1d\x1e\x85\u2028\u2029"
+
+    def bad(o):
+        try:
+            r = repr(o)
+        except Exception:  # noqa: BLE001
+            return False
+        return any(ch in breaks for ch in r)
+
+    def go(o):
+        if is_container(o):
+            if id(o) in seen:
+                return False
+            seen.add(id(o))
+            if type(o) in MAP_KINDS:
+                return any(bad(k) or go(x) for k, x in o.items())
+            return any(go(x) for x in o)
+        return bad(o)
+
+    return go(v)
+
+
+def has_empty_key_repr(v):
+    """a mapping key whose repr() is empty: rich tests `if self.key_repr:` and prints the value without key and colon."""
+    seen = set()
+
+    def go(o):
+        if is_container(o):
+            if id(o) in seen:
+                return False
+            seen.add(id(o))
+            if type(o) in MAP_KINDS:
+                for k, x in o.items():
+                    try:
+                        if repr(k) == "":
+                            return True
+                    except Exception:  # noqa: BLE001
+                        pass
+                    if go(x):
+                        return True
+                return False
+            return any(go(x) for x in o)
+        return False
+
+    return go(v)
+
+
+ARRAY_CODES = "bBuhHiIlLqQfd"
+
+
+def edge_leaves():
+    return [
+        EmptyRepr(),
+        NewlineRepr(),
+        NewlineRepr("x\r\ny"),
+        NewlineRepr("\u2028"),
+        NewlineRepr("tail\n"),
+        BrokenRepr(),
+        MyList([1, 2]),
+        MyList(),
+        MyTuple((1,)),
+        MyTuple(),
+        MyDict(a=1),
+        MyStr("sub"),
+        MyStr("sub" * 10),
+        Point(1, 2),
+        Point([1, 2], (3,)),
+        DC(),
+        _c.OrderedDict(a=1, b=[2]),
+        "lone \ud800 surrogate",
+        "\udfff",
+        10**40,
+        -(10**25),
+        -0.0,
+        float("nan"),
+        INF,
+        -INF,
+        1e-320,
+        Ellipsis,
+        range(3),
+        frozenset,
+        b"\n",
+        "\u2028\u0085",
+    ]
+
+
+def edge_values():
+    """each edge leaf alone, as an item, as a key / value, in a one-element tuple, nested; deques with maxlen;
+    nested defaultdict factories; arrays of every typecode (empty and not)."""
+    for x in edge_leaves():
+        yield x
+        yield [x, 1]
+        yield (x,)
+        yield {"k": x, "k2": [x]}
+        yield [[x], (x, x)]
+        try:
+            hash(x)
+        except TypeError:
+            continue
+        yield {x: 1, "z": 2}
+        yield {x}
+        yield Counter([x, x])
+    for n in (0, 1, 2, 3):
+        for mx in (None, 0, 1, 2, 5):
+            yield deque(range(n), maxlen=mx)
+            yield [deque(["a" * 5] * n, maxlen=mx)]
+    yield defaultdict(FACTORY, {"a": defaultdict(FACTORY, {"b": defaultdict(None, {"c": [1, 2]})})})
+    yield defaultdict(None, {"a": defaultdict(list, {"b": [1]}), "c": defaultdict(int)})
+    yield defaultdict(lambda: defaultdict(int), {"a": defaultdict(int, {"x": 1})})
+    yield defaultdict(defaultdict, {1: defaultdict(None)})
+    for tc in ARRAY_CODES:
+        yield array(tc)
+        if tc == "u":
+            yield array(tc, "añあ")
+            yield [array(tc, "xy"), (array(tc),)]
+        elif tc in "fd":
+            yield array(tc, [1.5, -2.0, 0.0])
+            yield (array(tc, [0.25] * 6),)
+        else:
+            hi = 100 if tc in "bB" else 30000
+            lo = 0 if tc.isupper() else -hi
+            yield array(tc, [lo, 1, hi])
+            yield {"k": array(tc, [1] * 8)}
